@@ -148,19 +148,22 @@ def rscanLoop (m : Store) (f : KV → KV) (end_ : Bytes) (limit : Nat) :
       if R.1 = [] then some (acc', tr') else rscanLoop m f end_ limit rest R.1 acc' tr'
     else some (acc, tr)
 
-/-- `Client.DeleteRange` + `sendDeleteRangeReq`: each request is cut at the located region's end -/
-def deleteRangeLoop (end_ : Bytes) : SScript → Bytes → Store → STrace → Option (Store × STrace)
-  | [], start, m, tr => if fwdCond start end_ then none else some (m, tr)
+/-- `Client.DeleteRange` + `sendDeleteRangeReq`: each request is cut at the located region's end.
+    DeleteRange is NOT atomic: every served partial request deletes its piece at once (its linearisation
+    point), so the loop returns the store reached so far also when it does not complete
+    (third component `false`: the script ran out, i.e. the call ended with an error). -/
+def deleteRangeLoop (end_ : Bytes) : SScript → Bytes → Store → STrace → Store × STrace × Bool
+  | [], start, m, tr => (m, tr, !fwdCond start end_)
   | none :: rest, start, m, tr =>
-    if fwdCond start end_ then deleteRangeLoop end_ rest start m tr else some (m, tr)
+    if fwdCond start end_ then deleteRangeLoop end_ rest start m tr else (m, tr, true)
   | some L :: rest, start, m, tr =>
     if fwdCond start end_ then
       let R := locate L start
       let actualEnd := if R.2 ≠ [] ∧ (end_ = [] ∨ R.2 < end_) then R.2 else end_
       let m' := regionDeleteRange m R start actualEnd
       let tr' := tr ++ [(start, actualEnd, 0)]
-      if actualEnd = [] then some (m', tr') else deleteRangeLoop end_ rest actualEnd m' tr'
-    else some (m, tr)
+      if actualEnd = [] then (m', tr', true) else deleteRangeLoop end_ rest actualEnd m' tr'
+    else (m, tr, true)
 
 /-- `Client.Checksum` -/
 def checksumLoop (m : Store) (end_ : Bytes) : SScript → Bytes → Checksum → STrace → Option (Checksum × STrace)
@@ -181,8 +184,12 @@ def scan (m : Store) (sc : SScript) (start end_ : Bytes) (limit : Nat) (keyOnly 
   scanLoop m (if keyOnly then stripValue else id) end_ limit sc start [] []
 def reverseScan (m : Store) (sc : SScript) (start end_ : Bytes) (limit : Nat) (keyOnly : Bool) : Option (List KV × STrace) :=
   rscanLoop m (if keyOnly then stripValue else id) end_ limit sc start [] []
-def deleteRange (m : Store) (sc : SScript) (start end_ : Bytes) : Option (Store × STrace) :=
+/-- store, trace and "completed" of a DeleteRange call -/
+def deleteRangeRun (m : Store) (sc : SScript) (start end_ : Bytes) : Store × STrace × Bool :=
   deleteRangeLoop end_ sc start m []
+def deleteRange (m : Store) (sc : SScript) (start end_ : Bytes) : Option (Store × STrace) :=
+  let r := deleteRangeRun m sc start end_
+  if r.2.2 then some (r.1, r.2.1) else none
 def checksum (m : Store) (sc : SScript) (start end_ : Bytes) : Option (Checksum × STrace) :=
   checksumLoop m end_ sc start Checksum.zero []
 
@@ -225,26 +232,47 @@ structure BState where
   store : Store
   pairs : List KV                         -- accumulated RawBatchGet pairs
   trace : List (List Item × Bool)         -- every batch sent and whether it was served
+  hist : List Store                       -- the store after every served batch (each is one atomic region request)
 
-def runBatches (recur : BState → List Item → BScript → Option (BState × BScript))
+/-- bookkeeping after a served batch -/
+def served (s' : BState) (b : List Item) : BState :=
+  { s' with trace := s'.trace ++ [(b, true)], hist := s'.hist ++ [s'.store] }
+/-- bookkeeping after a batch that ended in a region error -/
+def failed (s : BState) (b : List Item) : BState := { s with trace := s.trace ++ [(b, false)] }
+
+/-- The batch calls are NOT atomic: every served batch is one atomic region request (its linearisation point).
+    The state reached so far is therefore returned also when the call does not complete (`none` in the second
+    component: script exhausted or not matching the batches, i.e. the call ended with an error). -/
+def runBatches (recur : BState → List Item → BScript → BState × Option BScript)
     (exec : BState → Region → List Item → BState) :
-    BState → List (Region × List Item) → List Bool → BScript → Option (BState × BScript)
-  | s, [], [], sc => some (s, sc)
-  | s, (R, b) :: bs, true :: os, sc =>
-    runBatches recur exec { exec s R b with trace := (exec s R b).trace ++ [(b, true)] } bs os sc
+    BState → List (Region × List Item) → List Bool → BScript → BState × Option BScript
+  | s, [], [], sc => (s, some sc)
+  | s, (R, b) :: bs, true :: os, sc => runBatches recur exec (served (exec s R b) b) bs os sc
   | s, (_, b) :: bs, false :: os, sc =>
-    match recur { s with trace := s.trace ++ [(b, false)] } b sc with
-    | none => none
-    | some (s1, sc1) => runBatches recur exec s1 bs os sc1
-  | _, _, _, _ => none
+    match recur (failed s b) b sc with
+    | (s1, none) => (s1, none)
+    | (s1, some sc1) => runBatches recur exec s1 bs os sc1
+  | s, _, _, _ => (s, none)
 
-/-- `sendBatchReq` / `sendBatchPut`; `none`: script exhausted or not matching the batches -/
+/-- `sendBatchReq` / `sendBatchPut` -/
 def sendBatch (mk : Layout → List Item → List (Region × List Item)) (prep : List Item → List Item)
-    (exec : BState → Region → List Item → BState) : Nat → BState → List Item → BScript → Option (BState × BScript)
-  | 0, _, _, _ => none
-  | _ + 1, _, _, [] => none
+    (exec : BState → Region → List Item → BState) : Nat → BState → List Item → BScript → BState × Option BScript
+  | 0, s, _, _ => (s, none)
+  | _ + 1, s, _, [] => (s, none)
   | fuel + 1, s, items, e :: sc =>
     runBatches (sendBatch mk prep exec fuel) exec s (mk e.layout (prep items)) e.outs sc
+
+/-- `Completes mk prep bs outs sc sc'`: the script `sc` describes a COMPLETE run of the batches `bs` with outcomes
+    `outs`, leaving `sc'`: every batch is served, or meets a region error and is then re-grouped (next script entry:
+    grouping layout + outcomes of the sub-batches), recursively, until every sub-batch has been served.
+    These are exactly the executions in which the Go code returns without an error. -/
+inductive Completes (mk : Layout → List Item → List (Region × List Item)) (prep : List Item → List Item) :
+    List (Region × List Item) → List Bool → BScript → BScript → Prop
+  | nil (sc : BScript) : Completes mk prep [] [] sc sc
+  | served {R b bs os sc sc'} : Completes mk prep bs os sc sc' → Completes mk prep ((R, b) :: bs) (true :: os) sc sc'
+  | regrouped {R b bs os e sc sc1 sc'} :
+      Completes mk prep (mk e.layout (prep b)) e.outs sc sc1 → Completes mk prep bs os sc1 sc' →
+      Completes mk prep ((R, b) :: bs) (false :: os) (e :: sc) sc'
 
 def execGet (s : BState) (R : Region) (b : List Item) : BState :=
   { s with pairs := s.pairs ++ regionBatchGet s.store R (b.map (·.1)) }
@@ -253,22 +281,90 @@ def execPut (s : BState) (R : Region) (b : List Item) : BState :=
 def execDelete (s : BState) (R : Region) (b : List Item) : BState :=
   { s with store := regionBatchDelete s.store R (b.map (·.1)) }
 
+def BState.init (m : Store) : BState := ⟨m, [], [], []⟩
+
+def batchGetRun (m : Store) (sc : BScript) (keys : List Bytes) : BState × Option BScript :=
+  sendBatch mkKeyBatches id execGet (sc.length + 1) (BState.init m) (keys.map fun k => (k, [])) sc
+def batchPutRun (m : Store) (sc : BScript) (items : List Item) : BState × Option BScript :=
+  sendBatch mkPutBatches lastWins execPut (sc.length + 1) (BState.init m) items sc
+def batchDeleteRun (m : Store) (sc : BScript) (keys : List Bytes) : BState × Option BScript :=
+  sendBatch mkKeyBatches id execDelete (sc.length + 1) (BState.init m) (keys.map fun k => (k, [])) sc
+
 /-- `Client.BatchGet`: the pairs of all batches go into a Go map, the result is looked up positionally -/
 def batchGet (m : Store) (sc : BScript) (keys : List Bytes) : Option (List (Option Bytes) × List (List Item × Bool)) :=
-  match sendBatch mkKeyBatches id execGet (sc.length + 1) ⟨m, [], []⟩ (keys.map fun k => (k, [])) sc with
-  | none => none
-  | some (s, _) =>
+  match batchGetRun m sc keys with
+  | (_, none) => none
+  | (s, some _) =>
     let keyToValue : OMap Bytes := s.pairs.foldl (fun acc p => acc.insert p.1 p.2) OMap.empty
     some (keys.map keyToValue.get, s.trace)
 
 def batchPut (m : Store) (sc : BScript) (items : List Item) : Option (Store × List (List Item × Bool)) :=
-  match sendBatch mkPutBatches lastWins execPut (sc.length + 1) ⟨m, [], []⟩ items sc with
-  | none => none
-  | some (s, _) => some (s.store, s.trace)
+  match batchPutRun m sc items with
+  | (_, none) => none
+  | (s, some _) => some (s.store, s.trace)
 
 def batchDelete (m : Store) (sc : BScript) (keys : List Bytes) : Option (Store × List (List Item × Bool)) :=
-  match sendBatch mkKeyBatches id execDelete (sc.length + 1) ⟨m, [], []⟩ (keys.map fun k => (k, [])) sc with
-  | none => none
-  | some (s, _) => some (s.store, s.trace)
+  match batchDeleteRun m sc keys with
+  | (_, none) => none
+  | (s, some _) => some (s.store, s.trace)
+
+/-! ## whole call sequences: the client over changing layouts against the plain ordered map -/
+
+inductive Call
+  | get (k : Bytes) | put (k v : Bytes) | delete (k : Bytes) | cas (k : Bytes) (prev : Option Bytes) (new : Bytes)
+  | batchGet (keys : List Bytes) | batchPut (items : List Item) | batchDelete (keys : List Bytes)
+  | scan (start end_ : Bytes) (limit : Nat) (keyOnly : Bool) | reverseScan (start end_ : Bytes) (limit : Nat) (keyOnly : Bool)
+  | deleteRange (start end_ : Bytes) | checksum (start end_ : Bytes)
+
+inductive Result
+  | unit | value (v : Option Bytes) | swapped (prev : Option Bytes) (ok : Bool)
+  | values (vs : List (Option Bytes)) | pairs (kvs : List KV) | sum (c : Checksum)
+  deriving DecidableEq
+
+/-- what the call does on ONE ordered map (no regions) -/
+def specStep (m : Store) : Call → Store × Result
+  | .get k => (m, .value (m.get k))
+  | .put k v => (m.insert k v, .unit)
+  | .delete k => (m.erase k, .unit)
+  | .cas k prev new => (if m.get k = prev then m.insert k new else m, .swapped (m.get k) (decide (m.get k = prev)))
+  | .batchGet keys => (m, .values (keys.map m.get))
+  | .batchPut items => (items.foldl (fun a it => a.insert it.1 it.2) m, .unit)
+  | .batchDelete keys => (keys.foldl (fun a k => a.erase k) m, .unit)
+  | .scan s e limit ko => (m, .pairs (((m.range s (toBound e)).take limit).map (if ko then stripValue else id)))
+  | .reverseScan s e limit ko => (m, .pairs (((m.rrange (some s) e).take limit).map (if ko then stripValue else id)))
+  | .deleteRange s e => (m.eraseRange s (toBound e), .unit)
+  | .checksum s e => (m, .sum (csOf (m.range s (toBound e))))
+
+/-- the observations of one call: per-attempt layouts / region errors, and for batch calls the grouping layouts and outcomes -/
+structure Obs where
+  seq : SScript
+  batch : BScript
+
+/-- the modelled client performing the call; `none`: the call did not complete under these observations -/
+def clientStep (m : Store) (o : Obs) : Call → Option (Store × Result)
+  | .get k => (get m o.seq k).map fun r => (m, .value r)
+  | .put k v => (put m o.seq k v).map fun m' => (m', .unit)
+  | .delete k => (delete m o.seq k).map fun m' => (m', .unit)
+  | .cas k prev new => (cas m o.seq k prev new).map fun r => (r.1, .swapped r.2.1 r.2.2)
+  | .batchGet keys => (batchGet m o.batch keys).map fun r => (m, .values r.1)
+  | .batchPut items => (batchPut m o.batch items).map fun r => (r.1, .unit)
+  | .batchDelete keys => (batchDelete m o.batch keys).map fun r => (r.1, .unit)
+  | .scan s e limit ko => (scan m o.seq s e limit ko).map fun r => (m, .pairs r.1)
+  | .reverseScan s e limit ko => (reverseScan m o.seq s e limit ko).map fun r => (m, .pairs r.1)
+  | .deleteRange s e => (deleteRange m o.seq s e).map fun r => (r.1, .unit)
+  | .checksum s e => (checksum m o.seq s e).map fun r => (m, .sum r.1)
+
+def specRun (m : Store) : List Call → Store × List Result
+  | [] => (m, [])
+  | c :: cs => let r := specStep m c; let t := specRun r.1 cs; (t.1, r.2 :: t.2)
+
+def clientRun (m : Store) : List (Call × Obs) → Option (Store × List Result)
+  | [] => some (m, [])
+  | (c, o) :: cs =>
+    match clientStep m o c with
+    | none => none
+    | some r => match clientRun r.1 cs with
+      | none => none
+      | some t => some (t.1, r.2 :: t.2)
 
 end CGV.RawKV
